@@ -162,8 +162,8 @@ func (m *MonC14) OnQuiescent(w *World, epoch int) {
 		if !reflect.DeepEqual(want, got) {
 			w.Report(Violation{Property: "C14", Rule: "concat-differs", Sig: store.Annotations(pkg)["packages.package-operator.run/chunking-strategy"], Msg: fmt.Sprintf("at quiescence the slices of %s concatenate to %v, the rendered package lists %v", key, got, want)})
 		}
-		if len(store.Get(od, "spec", "template", "spec", "phases").([]any)) > 0 {
-			for _, px := range store.Get(od, "spec", "template", "spec", "phases").([]any) {
+		if tplPhases, _ := store.Get(od, "spec", "template", "spec", "phases").([]any); len(tplPhases) > 0 {
+			for _, px := range tplPhases {
 				pm, _ := px.(map[string]any)
 				if sl, _ := pm["slices"].([]any); len(sl) > 0 {
 					w.Stats.Probe("c14-template-sliced")
